@@ -75,6 +75,7 @@ func (g *G) largeWords(n int, variant int) []uint64 {
 
 func init() {
 	gens["C01"] = func(g *G) {
+		g.emit("tbl masks")
 		// exhaustive small scope: all bitmaps of <= 2 words over a 7-word alphabet x all positions
 		smallBitmaps(alphabet7, 2, func(ws []uint64) {
 			s := showU64s(ws)
@@ -137,6 +138,8 @@ func init() {
 	}
 
 	gens["C02"] = func(g *G) {
+		g.emit("tbl select8")
+		g.emit("tbl masks")
 		// table exhaustive through the public API: every (byte, k) in each of the 8 byte lanes
 		for lane := 0; lane < 8; lane++ {
 			for b := 1; b < 256; b++ {
@@ -273,6 +276,7 @@ func init() {
 	}
 
 	gens["C13"] = func(g *G) {
+		g.emit("tbl masks")
 		edges := []int{0, 1, 31, 32, 62, 63, 64, 65, 127, 128, 129, 190, 191, 192}
 		smallBitmaps([]uint64{0, 1, 1 << 63, ^uint64(0), 1 << 31}, 3, func(ws []uint64) {
 			if len(ws) == 0 {
@@ -371,6 +375,7 @@ func init() {
 	}
 
 	gens["C14"] = func(g *G) {
+		g.emit("tbl masks")
 		widths := []int{1, 2, 4, 8, 16, 32, 64}
 		for _, w := range widths {
 			maxN := g.n(70, 200)
